@@ -53,6 +53,9 @@ LOOP.methods["create_future"] = ExtMethod("create_future", fn=_create_future)
 
 
 def _get_loop(I, args, kwargs):
+    cur = I.ctx.ghost.get("running_loop")  # a contract may fix which loop the caller runs on
+    if cur is not None:
+        return cur
     return SObj(LOOP, {}, tag="loop")
 
 
